@@ -94,6 +94,31 @@ def check_case(d, fmt, sort, cfg, tmpdir):
             except Exception as exc:
                 return [("round trip raised " + type(exc).__name__, repr(exc))]
             after = iomodels.content_view(m2, with_groups=groups)
+            # nothing mutable may be shared between two loads of the same document, between the loaded model and
+            # the saved one, or between different objects of one loaded model
+            from .c12 import mutable_graph
+
+            try:
+                m2b = roundtrip(model, fmt, sort, tmpdir)
+                g0, g1, g2 = mutable_graph(model), mutable_graph(m2), mutable_graph(m2b)
+                for name, ga, gb in (("two loads of the same document share", g1, g2),
+                                     ("the loaded model shares with the saved model", g0, g1)):
+                    shared = sorted({ga[i] for i in set(ga) & set(gb)})
+                    for kd in shared[:3]:
+                        problems.append((f"{name} mutable object {kd}", kd))
+                owners = {}
+                for lst in (m2.reactions, m2.metabolites, m2.genes):
+                    for x in lst:
+                        for attr in ("notes", "annotation"):
+                            obj = getattr(x, attr)
+                            if id(obj) in owners and owners[id(obj)] is not x:
+                                problems.append((f"loaded objects share one {attr} dictionary", f"{owners[id(obj)].id} and {x.id}"))
+                            owners[id(obj)] = x
+                for ra, rb in ((a, b) for a in m2.reactions for b in m2.reactions if a.id < b.id):
+                    if ra.gpr is rb.gpr:
+                        problems.append(("loaded reactions share one rule object", f"{ra.id} and {rb.id}"))
+            except Exception as exc:
+                problems.append(("second load raised " + type(exc).__name__, repr(exc)))
             df = observe.diff(before, after)
             if df:
                 problems.append(("content differs at " + _norm(observe.first_path(df)), "\n".join(df)))
